@@ -236,6 +236,9 @@ type ModelMonitor struct {
 	Published []PublishedMetric
 	FailPub   int // next n PublishMetric calls fail
 	peers     func() []peer.ID
+	// latest is the simulator's own record of the last metric received per
+	// (name, peer): oracles read this, never the Store under test.
+	latest map[string]api.Metric
 }
 
 type PublishedMetric struct {
@@ -248,14 +251,26 @@ type PublishedMetric struct {
 }
 
 func NewModelMonitor(run *Run, who string, peers func() []peer.ID) *ModelMonitor {
-	return &ModelMonitor{run: run, who: who, store: metrics.NewStore(), alerts: make(chan *api.Alert, 256), peers: peers}
+	return &ModelMonitor{run: run, who: who, store: metrics.NewStore(), alerts: make(chan *api.Alert, 256), peers: peers, latest: map[string]api.Metric{}}
 }
 
 func (m *ModelMonitor) SetClient(*rpc.Client)          {}
 func (m *ModelMonitor) Shutdown(context.Context) error { return nil }
 func (m *ModelMonitor) LogMetric(ctx context.Context, mt *api.Metric) error {
+	m.mu.Lock()
+	m.latest[mt.Name+"|"+string(mt.Peer)] = *mt
+	m.mu.Unlock()
 	m.store.Add(mt)
 	return nil
+}
+
+// Recorded returns the last metric this monitor received for (name, peer),
+// from the simulator's own table.
+func (m *ModelMonitor) Recorded(name string, p peer.ID) (api.Metric, bool) {
+	m.mu.Lock()
+	defer m.mu.Unlock()
+	mt, ok := m.latest[name+"|"+string(p)]
+	return mt, ok
 }
 func (m *ModelMonitor) PublishMetric(ctx context.Context, mt *api.Metric) error {
 	m.mu.Lock()
@@ -269,6 +284,7 @@ func (m *ModelMonitor) PublishMetric(ctx context.Context, mt *api.Metric) error 
 		return errors.New("model monitor: injected publish failure")
 	}
 	m.Published = append(m.Published, rec)
+	m.latest[mt.Name+"|"+string(mt.Peer)] = *mt
 	m.mu.Unlock()
 	m.run.Ev(m.who, "publish", "%s valid=%v ttl=%dms", mt.Name, mt.Valid, (mt.Expire-time.Now().UnixNano())/1e6)
 	cp := *mt
